@@ -12,7 +12,7 @@ from vlib import core
 from vlib.core import cz, cnat, cbool, copt, clist
 
 MANIFEST = dict(
-    text='Theorems (Coq, all inputs): the recursion guard, default frame limit, default depth and truncation marker of einfo.Traceback as translated from einfo.py on every run equal the model; the stand-in chain has at most recursionlimit//8 + 3 nodes and is the first limit+2 live frames followed by the marker iff the live chain is longer; for every exception class that reproduces itself from its args and every n >= 1, n pickle round trips of an ExceptionInfo keep type, exception class, args, attributes, traceback text and tb chain, and nothing changes after the second; REFUTED for MaybeEncodingError on the pinned tree (args are re-repr()ed on every round trip, for ever: D20); a result whose READY cannot be sent yields exactly one READY carrying a MaybeEncodingError record and the worker loop continues; with a working pipe every accepted task gets exactly one READY. Correspondence: real exceptions x argument tuples x traceback depths 1..300 (thorough ..900 and RecursionError) x 1..5 pickle round trips, Traceback(max_frames=m), MaybeEncodingError(a, b), and the real Worker.workloop in-process over scripted requests with a really-pickling outq.',
+    text='Theorems (Coq, all inputs): the recursion guard, default frame limit, default depth and truncation marker of einfo.Traceback as translated from einfo.py on every run equal the model; the stand-in chain has at most recursionlimit//8 + 3 nodes and is the first limit+2 live frames followed by the marker iff the live chain is longer; for every exception class that reproduces itself from its args and every n >= 1, n pickle round trips of an ExceptionInfo keep type, exception class, args, attributes, traceback text and tb chain, and nothing changes after the second; the same stated for picklable records only (every record along the chain is again picklable), an unpicklable record is never sent; COUNTERFACTUAL (switch value false = the tree before the repair of D20): MaybeEncodingError args are re-repr()ed on every round trip, for ever; the body of MaybeEncodingError.__reduce__ and of its rebuild function, as matched on this run, returns a constructed object unchanged; MAIN CLAUSE: a task raising a picklable exception (any class) yields ACK + exactly one READY(ok=False) carrying the record with type, wrapped exception, text and the copied traceback (<= limit+3 nodes), and for every k >= 1 the k-fold round trip of that record exists, is picklable and has exactly that type, class, args, attributes, text and chain; a task raising an unpicklable exception is answered by exactly one READY carrying the MaybeEncodingError record, which survives every k >= 1 round trips; a result whose READY cannot be sent yields exactly one READY carrying a MaybeEncodingError record and the worker loop continues; with a working pipe every accepted task gets exactly one READY. Correspondence: real exceptions x argument tuples x traceback depths 1..300 (thorough ..900 and RecursionError) x 1..5 pickle round trips, Traceback(max_frames=m), MaybeEncodingError(a, b), and the real Worker.workloop in-process over scripted requests with a really-pickling outq.',
     note='Trusted: Coq kernel; translate/kernels/einfo.py (structural matcher + pykernel expression translator); harness/einfo_driver.py; pickle and the traceback module themselves (the text is an oracle; "the standard module can format the stand-in tb" is validated on every case, not proved); repr() of non-str objects is an oracle, repr of str is modelled for ASCII code points; exception classes whose constructor does not reproduce the object from its args are outside the statement. All theorems Closed under the global context.',
     technique='Coq proof over translator-regenerated kernel + differential correspondence + Gallina monitor on implementation traces',
     ref='5.12',
@@ -490,8 +490,13 @@ def run(res):
         'repr() of anything but str/int/None/bool/tuple/list is an oracle; str code points ASCII (a few printable non-ASCII are exercised)',
         'exception classes whose constructor does not rebuild the object from .args (the statement says "picklable") are outside',
         'the worker is run in-process with synq=None and a scripted wait_for_job; put failures other than pickling are scripted by call index',
-        'Model.EInfo.mee_repaired = false: the model follows the pinned tree (MaybeEncodingError without __reduce__); '
-        'lemma gen_mee_reduce fails to compile if /repo and that line disagree',
+        'Model.EInfo.mee_repaired = true: the model follows /repo (MaybeEncodingError has the repaired __reduce__); '
+        'lemma gen_mee_reduce fails to compile if /repo and that line disagree, and gen_mee_rebuild if the BODY of '
+        '__reduce__ / of the rebuild function it names (matched statement by statement by the translator) does not '
+        'restore args and __dict__; the *_refuted / *_never_settles theorems are about the counterfactual switch value false',
+        'the model of unpickling a MaybeEncodingError under the repaired switch is exact on objects of the shape its '
+        'constructor builds (args = (exc, value), __dict__ = {exc, value}); the new end-to-end theorems assume that shape '
+        '(picklable_exc); extra attributes set on such an object by hand would be dropped by the real __reduce__',
     ]
 
 
